@@ -7,14 +7,19 @@ from lib.common import enc_str, enc_strs, dec_str, dec_ostr, dec_strs, model_run
 
 PID = "C06"
 RULE = ("gen: source translation (Gen/NestSrc.v: nested_render_text, MockState.nested_parse, render_fence/render_colon_fence, "
-        "render_directive/run_directive, render_substitution statement by statement, proved equal to the model: C06_src_is_model); "
-        "correspondence: (a) extracted model (Nest/Split.v: splitlines, info splitting, parse_directive_text for the "
-        "admonition classes, wrapper printer, predicted nested_render_text calls) vs the implementation instrumented at "
-        "DocutilsRenderer.nested_render_text; (b) one test per oracle hypothesis on the real libraries (fence content, "
-        "admonition classes, text normalisation, file text, Jinja value); (c) the metamorphic pairs render(W(X)) vs render(X) "
-        "on generated block sequences x wrappers; search: the same metamorphic oracle on fresh cases + usability of "
-        "footnotes/targets/reference definitions defined inside from outside; non-trivial = a pair whose body has >= 2 "
-        "blocks or a nested directive, or a wrapper of depth >= 2 or with options")
+        "render_directive/run_directive, render_substitution and the try/finally of MockIncludeDirective.run, statement by statement "
+        "with alpha-normalised locals, proved equal to the model: C06_src_is_model, C06_include_log_restored_src); "
+        "correspondence: (a) extracted model (Nest/Split.v, Nest/Fence.v: split_lines, info splitting, parse_directive_text for the "
+        "admonition classes, wrapper printer, predicted nested_render_text calls, fence detection) vs the implementation "
+        "instrumented at DocutilsRenderer.nested_render_text and vs markdown-it; (b) one test per oracle hypothesis on the real "
+        "libraries (fence content, admonition classes, text normalisation, mapped tokens, file text, Jinja value); (c) the "
+        "metamorphic pairs render(W(X)) vs render(X) on generated block sequences x wrappers (canonical trees, line/source masked, "
+        "the C05 relation section <-> rubric with level/ids/names/title asserted explicitly, constant line shift), chains of nested "
+        "parses (definitions inside k, uses inside j>k, with/without an own refdef), include histories (same file included more "
+        "than once), include/substitution/eval-rst interplay; search: the same oracles on fresh cases + usability of "
+        "footnotes/targets/reference definitions across the nested parse in both directions + :heading-offset: (also nested); "
+        "non-trivial = a pair whose body has >= 2 blocks or a nested directive, or a wrapper of depth >= 2 or with options, every "
+        "chain / history")
 TRUSTED = ["coq/Nest/Nest.v is a hand transcription of nested_render_text/run_directive/render_fence/render_colon_fence/"
            "render_substitution/current_node_context (base.py), MockState.nested_parse/MockInliner.parse/"
            "MockIncludeDirective.run (mocking.py); coq/Nest/Split.v of parse_directive_text (directives.py)",
@@ -26,8 +31,15 @@ TRUSTED = ["coq/Nest/Nest.v is a hand transcription of nested_render_text/run_di
            "statements listed as 'skip' are outside the model",
            "the abstract token type of Nest.v (leaf / container / heading / target / footnote / fence / substitution) "
            "covers how every render_<type> touches shared state; document['source'] switching in include is not modelled",
-           "canonical doctree comparison in props/C06.py (line/source masked, section->rubric on the top-level side)"]
+           "gen/c06_walk.py alpha-normalisation (locals renamed by order of first binding / by what they are first bound to) and "
+           "normalisation (f-strings -> 'F', docstrings/asserts dropped)",
+           "canonical doctree comparison in props/C06.py (line/source masked; the top-level side rewritten by the C05 relation: "
+           "section at depth d -> rubric level=d with the section's ids/names and title content)"]
 ORACLES = {
+    "P / PI": "the Markdown parser md.parse / md.parseInline (markdown-it-py + plug-ins): token forest and mutated env; abstract in "
+              "every theorem (oracles record o_P, o_PI); exercised through O_fence_content, O_norm, O_shift and all metamorphic pairs",
+    "log_oracles": "opaque directives and eval-rst do not touch md_env['include_log'] (premise of C06_include_chain_restored; "
+                   "corr/search: include histories with nested code-block / unknown directives in between)",
     "O_fence_content": "markdown-it: a backtick/tilde/colon fence whose body has no closing line gives one token with "
                        "content = the lines in between, info = rest of the opening line, map = [0, n+2], env untouched "
                        "(corr: oracle:fence on generated bodies incl. nested wrappers)",
@@ -1171,20 +1183,32 @@ def replay(ctx, data):
     return 0 if ok else 1
 
 
-LEVEL_TEXT = ("Proof (Coq): the renderer model with mutable object graph, current-node pointer, level map, heading offset and "
-              "temp root computes a pure denotation of the token forest that depends on the state only through the shared "
-              "registries (C06_render_context_free); for admonition wrappers of any depth, fence kind/length and option layout "
-              "the wrapped document renders to the admonition nodes around exactly the body's denotation at a constant line "
-              "shift, with the body's registries, titled admonitions and all four option layouts included "
-              "(C06_directive_transparent, C06_backtick_colon_same, C06_body_offset_*); the shift is exact: every line + k "
-              "(C06_line_shift_equivariant, C06_directive_transparent_lines); O_adm and O_fence_content are jointly satisfiable "
-              "by a concrete fence model validated against markdown-it (C06_oracles_satisfiable); "
-              "include and substitution render the file text / value in place (C06_include_transparent, C06_include_in_place, "
-              "C06_subst_transparent); definitions inside stay usable because registries are threaded "
-              "(C06_registries_shared); reference definitions do not (C06_refdefs_visible_refuted). Tie: extracted splitter/"
-              "printer/call-prediction model vs the instrumented implementation, one test per oracle hypothesis, and the "
-              "metamorphic pairs on the implementation, every run.")
-LEVEL_NOTE = ("Partial: markdown-it, docutils' directive classes, Jinja and the file system are oracles (O_fence_content, O_adm, "
-              "O_norm, O_fs, O_jinja), exercised on the real libraries by the correspondence; the token/node types are abstract; "
-              "line-shift equivariance excludes documents with include directives (own line numbers) and needs the opaque "
-              "directives to be line-equivariant. Open finding: reference definitions inside a nested parse are not usable outside.")
+LEVEL_TEXT = ("Proof (Coq 8.16, 23 theorems, all closed under the global context). Proved in full on the model Nest/Nest.v (object graph with "
+              "detached nodes, current-node pointer, level map, heading offset, temp root, shared md_env + registries): the renderer "
+              "computes a pure denotation of the token forest that depends on the state only through the shared registries "
+              "(C06_render_context_free); for admonition wrappers of any depth, fence kind/length (backtick, tilde, colon), titled or "
+              "not, with every option layout, the wrapped document is the admonition nodes around exactly the body's own nodes with the "
+              "body's registries (C06_directive_transparent, C06_backtick_colon_same, C06_body_offset_none/blank/colon/dash), the line "
+              "relation exactly: every line + (1 + body_offset - prepended_lines) (C06_line_shift_equivariant, "
+              "C06_directive_transparent_lines); include and substitution render the file text / value in place "
+              "(C06_include_transparent, C06_include_in_place, C06_subst_transparent); what nested_render_text and the include "
+              "directive keep across calls is restored (C06_nested_restores, C06_include_chain_restored, C06_include_log_restored); "
+              "footnotes/targets defined inside stay usable because one registry state is threaded (C06_registries_shared); O_adm and "
+              "O_fence_content are jointly satisfiable by a concrete fence model (C06_oracles_satisfiable). Refuted with a witness: "
+              "reference definitions inside a nested parse are not usable outside (C06_refdefs_visible_refuted; open finding). "
+              "Tied to code regenerated from the source on every run (Gen/NestSrc.v, statement by statement: nested_render_text, "
+              "MockState.nested_parse, render_fence/render_colon_fence, render_directive/run_directive, render_substitution, the "
+              "try/finally of MockIncludeDirective.run) by refinement proofs: C06_src_is_model, C06_nested_restores_src, "
+              "C06_registries_shared_src, C06_subst_transparent_src, C06_include_log_restored_src. Further tie on every run: extracted "
+              "splitter/printer/nested-call prediction and fence model vs the instrumented implementation and markdown-it, one test "
+              "per oracle hypothesis, metamorphic pairs render(W(X)) vs render(X) incl. chains, include histories and interplay.")
+LEVEL_NOTE = ("Partial: the Markdown parser P/PI (markdown-it-py: tokens + mutated env), docutils' directive registry and admonition "
+              "classes (O_adm), fence content (O_fence_content / O_fence), the file system (O_fs), Jinja (O_jinja), option "
+              "validation, other directives and eval-rst (context-free and line-equivariant by hypothesis: O_other_directives, "
+              "O_shift, log_oracles) are oracles, each exercised on the real library by the correspondence; token and node types are "
+              "abstract; line-shift equivariance excludes documents with include directives (an included file keeps its own line "
+              "numbers); document['source'] switching, include slicing options, relative-images/docs, fence_as_directive / "
+              "commonmark_only / gfm_only (parameters at their defaults) are outside the model. Open finding: "
+              "refdef:not-visible-outside-nested-parse (architectural: the outer inline content is tokenised before the nested parse "
+              "adds the definition to md_env). Fixed: 620bbcf (directive bodies and included files are split at newlines only; the "
+              "two splitlines:* findings).")
